@@ -413,6 +413,8 @@ Definition sys_chdir (path : str) : MW Z :=
   match f with
   | Some e => fail CChdir [] [path] (Zpos e)
   | None =>
+      (* chdir(""): ENOENT (path_resolution(7): an empty pathname does not name anything) *)
+      if match path with [] => true | _ => false end then fail CChdir [] [path] ENOENT else
       let* w := get in
       let full := abs_path (pr_cwd (curp w)) path in
       match fs_lookup full w with
